@@ -24,8 +24,8 @@ def pt(p):
 
 def concretise(c, rnd):
     a = geom.ref_element(rnd.choice(["rect", "rect", "circle", "box"]), c["a"], "a")
-    bk = rnd.choice(["rect", "ellipse", "circle"])
-    b = geom.ref_element(bk, c["b"], "b")
+    bk = rnd.choice(["rect", "ellipse", "circle", "line"])
+    b = geom.ref_element(bk, c["b"], "b", rnd)
     f = c["form"]
     ct = c["ctype"]
     name = "polyline" if ct == "corner" else "line"
